@@ -70,6 +70,12 @@ func ParseASN1PublicKey(data []byte) (*PublicKey, error) {
 		return nil, errInvalidAsn1Curve
 	}
 
+	// The BIT STRING MUST contain a whole number of octets (the SEC 1
+	// encoding of the point), so unused bits are not allowed.
+	if subjectPublicKey.BitLength%8 != 0 {
+		return nil, errInvalidAsn1SPKI
+	}
+
 	encodedPoint := subjectPublicKey.RightAlign()
 	return NewPublicKey(encodedPoint)
 }
